@@ -241,7 +241,7 @@ CHECKS["C18"] = {
         {"name": "valrel", "quick_n": 6000, "thorough_n": 80000, "oracles": ["valrel-*", "process-crash"]},
         {"name": "num", "quick_n": 10000, "thorough_n": 100000},
     ],
-    "explanation": "Over the model of val.Equals / String / Key and the set functions: == is symmetric on well-formed values and reflexive exactly on values whose numeric leaves are self-equal (valEq_symm, valEq_refl_iff); rendering is invariant under permutation of map entries and of object fields (render_map_perm, render_obj_perm); for tolerance-separated values equal implies same text and same set element (equal_imp_same_text_partial, equal_imp_same_set_element); for numbers, strings and booleans equal iff same text iff same key (prim_equal_iff_same_text/key); distinct numbers never render alike or collide as keys (numbers_render_apart, numbers_keys_apart; for all integral doubles up to 2^63 with no assumption: int_range_numbers_render_apart). Tie: valrel stream (pairs: copy, field/insertion-permuted copy, one-leaf mutants at tolerance edges, unrelated) comparing ==, renderings, keys, string(), union membership; num stream for rendering.",
+    "explanation": "Over the model of val.Equals / String / Key and the set functions: == is symmetric on well-formed values and reflexive exactly on values whose numeric leaves are self-equal (valEq_symm, valEq_refl_iff); rendering is invariant under permutation of map entries and of object fields (render_map_perm, render_obj_perm); for tolerance-separated values equal implies same text and same set element (equal_imp_same_text_partial, equal_imp_same_set_element); for numbers, strings and booleans equal iff same text iff same key (prim_equal_iff_same_text/key); distinct numbers never render alike or collide as keys (numbers_render_apart, numbers_keys_apart; for all integral doubles up to 2^63 with no assumption: int_range_numbers_render_apart). Tie: valrel stream (pairs: copy, field/insertion-permuted copy, one-leaf mutants at tolerance edges, unrelated) comparing ==, renderings, keys, string(), union membership; num stream for rendering. THE CONVERSE (third session; Proofs/ValRelText*): same_text_imp_equal / equal_iff_same_text / equal_iff_same_type_and_text - for well-typed values of equal types that are tolerance-separated, == holds EXACTLY when the two render to the same text: the rendering grammar is unambiguous (quoted strings are self-delimiting whatever follows; number texts contain no separator; list / map / object texts split uniquely into their items; the text of an instant determines it, with the calendar arithmetic proved injective from 0000-03-01 on), by induction over the values with an arbitrary continuation; the corollaries the property names: same element for union / intersect / diff (merged_iff_equal, union_has_iff, intersect_has_iff, diff_has_iff), same map entry (same_key_iff_equal, select_same_entry_iff_equal). Each hypothesis that excludes something has a kernel-checked counterexample (two values with the same text that are not ==): different types ([] of two element types; an object with a field named \"a: true, b\"), ill-typed components, forged key texts, function values, a zone name containing a separator, zone offsets with odd seconds (Go prints +hhmm only), dates before 0000-03-01 (a limitation of the model's calendar arithmetic).",
     "assumptions": ["six IEEE / shortest-formatting facts are explicit hypotheses (structure FloatFacts: numEQ symmetric, zeros equal, NaN bits, numNE = not numEQ on finite values, fmtFloat injective, integer and float texts disjoint); Lean cannot compute with Float in the kernel", "same text => == for composite values (unambiguity of the rendering grammar) is not proved; it is checked by the valrel oracle"],
 }
 
